@@ -365,3 +365,117 @@ func ruleMultimapMerge(c *Ctx, pkgs ...string) {
 	}
 	c.Floor("multimap merges", nMerge, 2)
 }
+
+// ---------------------------------------------------------------------------
+// refs-handover (C12): the VM's reference counter is kept by the Stack operations: Push/InsertAt/PushItem count an
+// element, Pop/RemoveAt/Clear un-count it, pushNoRef/popNoRef/Peek/Top/Back leave the counter alone. An element that
+// is read from a stack S without un-counting it (Peek, Top, Back) and stored elsewhere without counting it
+// (pushNoRef) keeps the one count it had: S must then be abandoned as it is. Un-counting S afterwards in the same
+// function (Clear, Pop, RemoveAt) releases items that are still reachable from where they were handed to - the counter
+// under-counts and the item limit can be exceeded.
+func ruleRefsHandover(c *Ctx) {
+	pk := c.P.Pkg("pkg/vm")
+	if pk == nil {
+		c.Lost("refs-handover.anchor", "package vm not found")
+		return
+	}
+	uncounting := map[string]bool{"Clear": true, "Pop": true, "RemoveAt": true}
+	peeking := map[string]bool{"Peek": true, "Top": true, "Back": true}
+	n := 0
+	for _, fd := range c.P.AllFuncDecls() {
+		if fd.Pkg != pk || fd.Decl.Body == nil {
+			continue
+		}
+		info := fd.Pkg.TypesInfo
+		f := c.P.NewFuncCFG(fd)
+		isStackMethod := func(call *ast.CallExpr, names map[string]bool) (ast.Expr, bool) {
+			se, ok := ast.Unparen(call.Fun).(*ast.SelectorExpr)
+			if !ok || !names[se.Sel.Name] {
+				return nil, false
+			}
+			m, ok := info.ObjectOf(se.Sel).(*types.Func)
+			if !ok {
+				return nil, false
+			}
+			sig := m.Type().(*types.Signature)
+			if sig.Recv() == nil || !namedTypeIs(sig.Recv().Type(), "pkg/vm", "Stack") {
+				return nil, false
+			}
+			return se.X, true
+		}
+		// scope: the innermost case clause (execute is one huge switch) or the function body
+		var scopes []ast.Node
+		var visit func(nd ast.Node)
+		visit = func(nd ast.Node) {
+			if cc, ok := nd.(*ast.CaseClause); ok {
+				scopes = append(scopes, cc)
+				defer func() { scopes = scopes[:len(scopes)-1] }()
+			}
+			if call, ok := nd.(*ast.CallExpr); ok {
+				if _, ok := isStackMethod(call, map[string]bool{"pushNoRef": true}); ok && len(call.Args) == 1 {
+					// where does the element come from?
+					var src ast.Expr
+					var probe func(e ast.Expr, depth int)
+					probe = func(e ast.Expr, depth int) {
+						if depth > 3 || src != nil {
+							return
+						}
+						switch x := ast.Unparen(e).(type) {
+						case *ast.CallExpr:
+							if recv, ok := isStackMethod(x, peeking); ok {
+								src = recv
+							}
+						case *ast.Ident:
+							for _, d := range f.defs[info.ObjectOf(x)] {
+								for _, r := range d.rhs {
+									probe(r, depth+1)
+								}
+							}
+						}
+					}
+					probe(call.Args[0], 0)
+					if src != nil {
+						n++
+						var scope ast.Node = fd.Decl.Body
+						if len(scopes) > 0 {
+							scope = scopes[len(scopes)-1]
+						}
+						key := fmt.Sprintf("refs-handover.%s#%d", FuncKey(fd.Obj), n)
+						srcStr := types.ExprString(src)
+						var srcObj types.Object
+						if id, ok := ast.Unparen(src).(*ast.Ident); ok {
+							srcObj = info.ObjectOf(id)
+						}
+						bad := token.NoPos
+						badName := ""
+						ast.Inspect(scope, func(y ast.Node) bool {
+							if c2, ok := y.(*ast.CallExpr); ok {
+								if recv, ok := isStackMethod(c2, uncounting); ok {
+									same := types.ExprString(recv) == srcStr
+									if id, ok := ast.Unparen(recv).(*ast.Ident); ok && srcObj != nil {
+										same = info.ObjectOf(id) == srcObj
+									}
+									if same && bad == token.NoPos {
+										bad = c2.Pos()
+										badName = c2.Fun.(*ast.SelectorExpr).Sel.Name
+									}
+								}
+							}
+							return true
+						})
+						if bad != token.NoPos {
+							c.Fail(key, c.P.Pos(bad), fmt.Sprintf("%s hands elements of %s over with pushNoRef (they keep their one count) and also un-counts that stack with %s: items still reachable from the receiving stack lose their reference count", FuncKey(fd.Obj), srcStr, badName))
+						} else {
+							c.OK(key, c.P.Pos(call.Pos()), fmt.Sprintf("elements peeked from %s are handed over uncounted and %s is not un-counted afterwards", srcStr, srcStr))
+						}
+					}
+				}
+			}
+			for _, ch := range childNodes(nd) {
+				visit(ch)
+			}
+		}
+		visit(fd.Decl.Body)
+	}
+	c.Floor("uncounted hand-overs between stacks", n, 1)
+}
